@@ -445,11 +445,12 @@ def r5_length_domain(ctx, rule):
             ctx.bad(rule, q, '%s length guard %s' % (what, facts[what]), why, facts, f)
             return False
         return True
-    ok &= length_guard(pf, ALP + 'parse', 'training', ('pw_len', 'len(password)'), 'self.min_length', 'self.max_length',
+    ok &= length_guard(pf, ALP + 'parse', 'training', ('pw_len', 'len(password)'), 'self.min_length', ('self.max_length', 'len(self.ln_lookup)'),
                        'lengths ngram..max_length are trained on')
     ff = ctx.fn(FOL)
     tp = params(ff)[0]
-    ok &= length_guard(ff, FOL, 'third-pass', ('pw_len', 'len(password)'), '%s.min_length' % tp, '%s.max_length' % tp,
+    # the length table has exactly max_length entries (checked below), so its len() is another spelling of max_length
+    ok &= length_guard(ff, FOL, 'third-pass', ('pw_len', 'len(password)'), '%s.min_length' % tp, ('%s.max_length' % tp, 'len(%s.ln_lookup)' % tp),
                        'the third pass must accept exactly the lengths the counts were trained on (ngram <= len <= max_length, '
                        'both inclusive)')
     sf = ctx.fn(SCP)
